@@ -1316,6 +1316,8 @@ impl<'a> CompilerState<'a> {
                     let mut start = 0;
                     let mut var_const = var_const_ex;
                     let mut set_const = set_const_ex;
+                    // What this declarator changes in the memory class stays with it
+                    let mut memory = memory;
                     for p in pair.into_inner() {
                         match p.as_rule() {
                             Rule::pointer => {
